@@ -55,7 +55,7 @@ PROBES = ["all_commands_succeed", "first_command_fails", "middle_command_fails",
           "runner_killed_mid_command", "driver_second_instance_used_after_first", "driver_job_level_override", "driver_subclass_instance", "driver_created_used_dropped", "driver_class_level_envars", "two_jobs_same_jid_overlap", "driver_found_through_PATH", "driver_vectorised_job", "same_program_names_on_the_runners_PATH", "command_cannot_be_started", "driver_job_looked_at_through_the_class", "longer_files_of_an_earlier_run_in_place", "directories_given_as_relative_paths",
           "two_runners_create_the_directories_together"]
 
-FAIL_KINDS = [("rc", 1), ("rc", 2), ("rc", 255), ("sig", -11), ("nostart", None)]
+FAIL_KINDS = [("rc", 1), ("rc", 2), ("rc", 255), ("sig", -11), ("nostart", None), ("slow", None)]
 
 
 def budget(tier):
@@ -151,8 +151,9 @@ def _exec_one(plan, fail, missing, kill_at, root, res, sigctx, twin=False):
             f.write("foreign")
     cmds = [(f"{c['prog']} {c['args']}".strip(), c["name"]) for c in plan["commands"]]
     rf = None if plan["return_files_none"] else tuple(x["name"] for x in plan["returns"])
+    slow = fail is not None and fail[1] == "slow"
     ji = JobInput(plan["jid"], commands=cmds, files={k: _file_value(v) for k, v in plan["files"].items()} or None,
-                  return_files=rf, envars=plan["envars"])
+                  return_files=rf, envars=plan["envars"], **({"timeout": 1.0} if slow else {}))
     inp = os.path.join(root, "thejob.inp")
     stale_report = None
     if plan.get("stale_files") and not fresh_dirs:
@@ -180,6 +181,11 @@ def _exec_one(plan, fail, missing, kill_at, root, res, sigctx, twin=False):
             if x["by"] == "input" and x["name"] in missing and i == 0:
                 act.setdefault("delete", []).append(x["name"])
         if fail is not None and i == fail[0]:
+            if fail[1] == "slow":
+                # this command needs far longer than the job's `timeout`: a runner that enforces the timeout sees it fail, a
+                # runner that does not (the field is optional) sees it succeed - both are judged by what they did
+                act["duration"] = 10.0
+                return act
             if fail[1] == "nostart":
                 # the program cannot be started at all: subprocess.run raises instead of returning
                 return {"raise": FileNotFoundError(2, "No such file or directory", argv[0]), "files": {}}
@@ -274,6 +280,10 @@ def _exec_one(plan, fail, missing, kill_at, root, res, sigctx, twin=False):
         # the runner itself gave up before its first command
         return viol("exit-status", f"the runner ended with status {proc.returncode} before it ran any command")
 
+    if slow:
+        res.stats["probe:command_slower_than_the_jobs_timeout"] += 1
+        if not any(r_.get("timeout") is not None for r_ in fe.log):
+            fail = None          # the runner does not enforce timeouts: every command ran to completion and succeeded
     if fresh_dirs:
         res.stats["probe:two_runners_create_the_directories_together"] += 1
         if not twin_info:
@@ -352,11 +362,11 @@ def _exec_one(plan, fail, missing, kill_at, root, res, sigctx, twin=False):
         if proc.returncode == 0:
             return viol("exit-status", "runner killed mid-command but exit status 0")
         return
-    if fail is not None and fail[1] == "nostart":
-        # A command that cannot even be started is a failing command.  How much of a report a runner still manages to
+    if fail is not None and fail[1] in ("nostart", "slow"):
+        # A command that cannot even be started (or is killed because it exceeded the job's timeout) is a failing command.  How much of a report a runner still manages to
         # write is its own business (the unchanged one dies with a traceback), but it must not claim success anywhere.
         if proc.returncode == 0:
-            return viol("exit-status", "a command could not be started but the exit status is 0")
+            return viol("exit-status", f"a command {'could not be started' if fail[1] == 'nostart' else 'was killed after the timeout'} but the exit status is 0")
         outf_ = os.path.join(outdir, "thejob.out")
         if os.path.isfile(outf_):
             with open(outf_, "rb") as f_:
@@ -367,7 +377,7 @@ def _exec_one(plan, fail, missing, kill_at, root, res, sigctx, twin=False):
             except Exception:  # noqa: BLE001
                 return
             if jo_.exitcode == 0:
-                return viol("exit-status", f"a command could not be started, exit status {proc.returncode}, but the JobOutput records exit code 0 "
+                return viol("exit-status", f"a command {'could not be started' if fail[1] == 'nostart' else 'was killed after the timeout'}, exit status {proc.returncode}, but the JobOutput records exit code 0 "
                                            f"(files {sorted(jo_.files or {})})")
         return
     # ---- the report
@@ -640,7 +650,7 @@ def run_plan(plan, trace=False):
                 res.stats["probe:return_file_missing"] += 1
                 if len(miss) == len(rets):
                     res.stats["probe:all_return_files_missing"] += 1
-            fcls = "none" if fail is None else (("first" if fail[0] == 0 else "later") + "/" + ("signal" if fail[1] == "sig" else "nostart" if fail[1] == "nostart" else "rc"))
+            fcls = "none" if fail is None else (("first" if fail[0] == 0 else "later") + "/" + ("signal" if fail[1] == "sig" else fail[1] if fail[1] in ("nostart", "slow") else "rc"))
             if kill_at is not None:
                 fcls = "runner-killed" if kill_at not in ("twin", "twin_fs", "twin_rename") else kill_at
             sigctx = f"fail={fcls}|missing={'none' if not miss else ('all' if len(miss) == len(rets) else 'some')}|returns={'none' if not rets else 'some'}"
